@@ -92,13 +92,57 @@ func unrespondedExit(fa *FuncAn, blocked map[*ssa.BasicBlock]bool, removed []Edg
 }
 
 type responderInfo struct {
-	always  map[*ssa.Function]bool // responds on every path
+	always  map[*ssa.Function]bool // responds (or serves) on every path
 	onError map[*ssa.Function]bool // responds on every path that returns a non-nil error / nil token
+	onTrue  map[*ssa.Function]bool // single bool result: responds (serves) on every path that may return true
 }
 
-// computeResponders classifies the functions of package spnego.
+// failureEdges: the edges of fa on which a conditional responder called in it has responded —
+// err != nil (or a nil first result that only comes with an error) of an onError function, a true
+// result of an onTrue function.
+func (ri *responderInfo) failureEdges(w *World, fa *FuncAn) []Edge {
+	var removed []Edge
+	for _, b := range fa.Fn.Blocks {
+		for _, in := range b.Instrs {
+			call, ok := in.(*ssa.Call)
+			if !ok {
+				continue
+			}
+			f := call.Call.StaticCallee()
+			if f == nil {
+				continue
+			}
+			callS := q(fa.R.R(call))
+			if ri.onTrue[f] {
+				removed = append(removed, fa.MatchGuard(TruePass(callS))...)
+			}
+			if !ri.onError[f] {
+				continue
+			}
+			res := f.Signature.Results()
+			for i := 0; i < res.Len(); i++ {
+				term := callS
+				if res.Len() > 1 {
+					term = callS + fmt.Sprintf("#%d", i)
+				}
+				if res.At(i).Type().String() == "error" {
+					// edge on which err != nil
+					removed = append(removed, fa.MatchGuard(NePass("nil", term))...)
+				} else if _, isPtr := res.At(i).Type().(*types.Pointer); isPtr {
+					// a nil result is only returned together with the error
+					if nilOnlyWithError(w, f, i) {
+						removed = append(removed, fa.MatchGuard(EqPass("nil", term))...)
+					}
+				}
+			}
+		}
+	}
+	return removed
+}
+
+// computeResponders classifies the functions of package spnego (least fixpoint).
 func computeResponders(w *World, c *Check) *responderInfo {
-	ri := &responderInfo{always: map[*ssa.Function]bool{}, onError: map[*ssa.Function]bool{}}
+	ri := &responderInfo{always: map[*ssa.Function]bool{}, onError: map[*ssa.Function]bool{}, onTrue: map[*ssa.Function]bool{}}
 	sp := w.SSAPkgs["spnego"]
 	var fns []*ssa.Function
 	for _, fn := range w.ModuleFuncs() {
@@ -107,7 +151,7 @@ func computeResponders(w *World, c *Check) *responderInfo {
 		}
 	}
 	isResp := func(name string, ci ssa.CallInstruction) bool {
-		if name == "net/http.Error" {
+		if name == "net/http.Error" || name == "net/http.Handler.ServeHTTP" {
 			return true
 		}
 		if f := ci.Common().StaticCallee(); f != nil && ri.always[f] {
@@ -121,46 +165,48 @@ func computeResponders(w *World, c *Check) *responderInfo {
 			if ri.always[fn] {
 				continue
 			}
-			fa := NewFuncAn(w, fn)
+			fa := NewFuncAnRaw(w, fn)
 			blocked := blocksCalling(fa, isResp)
-			if len(blocked) == 0 {
+			removed := ri.failureEdges(w, fa)
+			if len(blocked) == 0 && len(removed) == 0 {
 				continue
 			}
-			if unrespondedExit(fa, blocked, nil, nil) == nil {
+			if unrespondedExit(fa, blocked, removed, nil) == nil {
 				ri.always[fn] = true
 				changed = true
+				continue
 			}
-		}
-	}
-	for _, fn := range fns {
-		if ri.always[fn] {
-			continue
-		}
-		res := fn.Signature.Results()
-		errIdx := -1
-		for i := 0; i < res.Len(); i++ {
-			if res.At(i).Type().String() == "error" {
-				errIdx = i
+			res := fn.Signature.Results()
+			errIdx := -1
+			for i := 0; i < res.Len(); i++ {
+				if res.At(i).Type().String() == "error" {
+					errIdx = i
+				}
 			}
-		}
-		if errIdx < 0 {
-			continue
-		}
-		fa := NewFuncAn(w, fn)
-		blocked := blocksCalling(fa, isResp)
-		if len(blocked) == 0 {
-			continue
-		}
-		// exits on which the error may be non-nil must have responded
-		p := unrespondedExit(fa, blocked, nil, func(x Exit) bool {
-			r := RetResults(x.Ret)[errIdx]
-			if k, ok := r.(*ssa.Const); ok && k.Value == nil {
-				return false // returns nil error: not a failure exit
+			if errIdx >= 0 && !ri.onError[fn] {
+				// exits on which the error may be non-nil must have responded
+				p := unrespondedExit(fa, blocked, removed, func(x Exit) bool {
+					r := RetResults(x.Ret)[errIdx]
+					if k, ok := r.(*ssa.Const); ok && k.Value == nil {
+						return false // returns nil error: not a failure exit
+					}
+					return true
+				})
+				if p == nil {
+					ri.onError[fn] = true
+					changed = true
+				}
 			}
-			return true
-		})
-		if p == nil {
-			ri.onError[fn] = true
+			if res.Len() == 1 && res.At(0).Type().String() == "bool" && !ri.onTrue[fn] {
+				p := unrespondedExit(fa, blocked, removed, func(x Exit) bool {
+					v, known := fa.knownBool(RetResults(x.Ret)[0], x.In)
+					return !known || v
+				})
+				if p == nil {
+					ri.onTrue[fn] = true
+					changed = true
+				}
+			}
 		}
 	}
 	return ri
@@ -199,12 +245,37 @@ func runC03(w *World, c *Check) {
 	const reSess = `spnego\.getSessionCredentials\(.*\)`
 	const reAccept = `spnego\.\(\*SPNEGO\)\.AcceptSecContext\(.*\)`
 	// ---- rule 1+2: ServeHTTP dominance and identity provenance ---------------
-	serve := fa.Calls(`net/http\.Handler\.ServeHTTP`)
+	// the serve sites: in the wrapper closure or in helpers extracted from it (their parameters read
+	// as the closure's arguments); a guard holds for a site when it dominates the call inside the
+	// helper, or dominates, in the closure, the call through which the helper is reached
+	serve := fa.CallsDeep(`net/http\.Handler\.ServeHTTP`)
 	if len(serve) == 0 {
 		c.Fail("C03.serve", hk, "serve-sites", w.Pos(h.Pos()), "the wrapper calls the wrapped handler", "no ServeHTTP call found in the wrapper closure")
 	}
-	for i, ci := range serve {
-		args := fa.CallArgs(ci)
+	domDeep := func(name, where, desc string, dc deepCall, pat GuardPat) {
+		inner := dc.fa.MatchGuard(pat)
+		if len(inner) > 0 && dc.fa.PathToInstrAvoiding(inner, dc.ci) == nil {
+			c.Ok("C03.serve", hk, name, where, desc)
+			return
+		}
+		if dc.fa.Fn != h {
+			outer := fa.MatchGuard(pat)
+			if len(outer) > 0 && fa.PathToInstrAvoiding(outer, dc.site) == nil {
+				c.Ok("C03.serve", hk, name, where, desc)
+				return
+			}
+			if len(inner) == 0 && len(outer) == 0 {
+				c.Fail("C03.serve", hk, name, where, desc, "no branch tests this condition; conditions present: "+trunc(fa.condSummary()+" ; "+dc.fa.condSummary(), 600))
+				return
+			}
+			c.Fail("C03.serve", hk, name, where, desc, "the call is reachable without the accepting edge of this test (neither inside "+FuncKey(dc.fa.Fn)+" nor at its call in the wrapper)")
+			return
+		}
+		decideDom(c, fa, "C03.serve", name, where, desc, inner, dc.ci)
+	}
+	for i, dc := range serve {
+		ci := dc.ci
+		args := dc.fa.CallArgs(ci)
 		where := w.Pos(InstrPos(ci))
 		name := fmt.Sprintf("serve#%d", i+1)
 		if len(args) != 3 {
@@ -215,17 +286,14 @@ func runC03(w *World, c *Check) {
 		case idm != "" && fullMatch(reSess+`#0`, idm):
 			// session branch
 			name += "(session)"
-			gA := fa.MatchGuard(EqPass("nil", reSess+`#1`))
-			gB := fa.MatchGuard(TruePass(`credentials\.\(\*Credentials\)\.Authenticated\(` + reSess + `#0\)`))
-			decideDom(c, fa, "C03.serve", name+":session-loaded", where, "served under a session only when the session credentials were loaded without error", gA, ci)
-			decideDom(c, fa, "C03.serve", name+":session-authenticated", where, "served under a session only when its credentials are marked authenticated", gB, ci)
+			domDeep(name+":session-loaded", where, "served under a session only when the session credentials were loaded without error", dc, EqPass("nil", reSess+`#1`))
+			domDeep(name+":session-authenticated", where, "served under a session only when its credentials are marked authenticated", dc, TruePass(`credentials\.\(\*Credentials\)\.Authenticated\(`+reSess+`#0\)`))
 			c.Ok("C03.serve", hk, name+":identity", where, "identity in the request context is the session's credentials")
 		case idm != "" && fullMatch(`context\.Context\.Value\(`+reAccept+`#1, `+q(ctxKey)+`\)\.\(\*credentials\.Credentials\)`, idm):
 			name += "(token)"
-			gOk := fa.MatchGuard(TruePass(reAccept + `#0`))
-			decideDom(c, fa, "C03.serve", name+":accepted", where, "served only when AcceptSecContext reported the context as established", gOk, ci)
+			domDeep(name+":accepted", where, "served only when AcceptSecContext reported the context as established", dc, TruePass(reAccept+`#0`))
 			vs := fa.ValueSets(reAccept + `#2\.Code`)
-			at := vs.At(ci.Block())
+			at := vs.At(dc.site.Block())
 			good := len(at) == 1 && at[0] == fmt.Sprint(complete)
 			c.Decide(good, "C03.serve", hk, name+":status-complete", where,
 				fmt.Sprintf("at the serve site the GSS status code can only be StatusComplete (%d)", complete),
@@ -276,6 +344,19 @@ func runC03(w *World, c *Check) {
 					if x.Call.IsInvoke() && x.Call.Value == v && x.Call.Method.Name() == "ServeHTTP" {
 						continue
 					}
+					// handed to a helper extracted from the wrapper: its uses there are checked the same way
+					if g := x.Call.StaticCallee(); g != nil && newHelper(g) && len(g.Blocks) > 0 {
+						passed := false
+						for ai, a := range x.Call.Args {
+							if a == v && ai < len(g.Params) {
+								check(g.Params[ai], g)
+								passed = true
+							}
+						}
+						if passed {
+							continue
+						}
+					}
 					innerOK = false
 					detail = "used at " + w.Pos(InstrPos(x)) + ": " + trunc(x.String(), 120)
 				case *ssa.DebugRef:
@@ -307,37 +388,9 @@ func runC03(w *World, c *Check) {
 		f := ci.Common().StaticCallee()
 		return f != nil && ri.always[f]
 	})
-	// failure edges of conditional responders: err != nil, or nil first result
-	var removed []Edge
-	for _, b := range h.Blocks {
-		for _, in := range b.Instrs {
-			call, ok := in.(*ssa.Call)
-			if !ok {
-				continue
-			}
-			f := call.Call.StaticCallee()
-			if f == nil || !ri.onError[f] {
-				continue
-			}
-			callS := q(fa.R.R(call))
-			res := f.Signature.Results()
-			for i := 0; i < res.Len(); i++ {
-				term := callS
-				if res.Len() > 1 {
-					term = callS + fmt.Sprintf("#%d", i)
-				}
-				if res.At(i).Type().String() == "error" {
-					// edge on which err != nil
-					removed = append(removed, fa.MatchGuard(NePass("nil", term))...)
-				} else if _, isPtr := res.At(i).Type().(*types.Pointer); isPtr {
-					// a nil result is only returned together with the error (checked below)
-					if nilOnlyWithError(w, f, i) {
-						removed = append(removed, fa.MatchGuard(EqPass("nil", term))...)
-					}
-				}
-			}
-		}
-	}
+	// failure edges of conditional responders: err != nil, nil first result, or a true 'served' result
+	nfa := NewFuncAnRaw(w, h)
+	removed := ri.failureEdges(w, nfa)
 	path := unrespondedExit(fa, blocked, removed, nil)
 	c.Decide(path == nil, "C03.respond", hk, "every-exit-responds", w.Pos(h.Pos()),
 		"every return of the wrapper is preceded by ServeHTTP, a responder, or the failure edge of a helper that responds on failure",
